@@ -582,9 +582,15 @@ func (c *compiler) compileFunc(compilerScope compilerScopeType, Ast ast.Ast, Arg
 	if len(Args.KwDefaults) > len(Args.Kwonlyargs) {
 		panic("compile: more KwDefaults than Kwonlyargs")
 	}
+	kwdefaults := uint32(0)
 	for i := range Args.KwDefaults {
+		if Args.KwDefaults[i] == nil {
+			// no default for this one
+			continue
+		}
 		c.LoadConst(py.String(Args.Kwonlyargs[i].Arg))
 		c.Expr(Args.KwDefaults[i])
+		kwdefaults++
 	}
 
 	// Annotations
@@ -613,7 +619,6 @@ func (c *compiler) compileFunc(compilerScope compilerScopeType, Ast ast.Ast, Arg
 
 	// Make function or closure, leaving it on the stack
 	posdefaults := uint32(len(Args.Defaults))
-	kwdefaults := uint32(len(Args.KwDefaults))
 	args := uint32(posdefaults + (kwdefaults << 8) + (num_annotations << 16))
 	c.makeClosure(newC.Code, args, newC, newC.qualname)
 
